@@ -48,6 +48,8 @@ func checkC04(ctx *Ctx, r *Report, tier string) {
 	r.floor("W2", 5)
 	r.floor("W3", 4)
 	r.floor("W4", 3)
+	checkQuadTiling(ctx, r)
+	r.floor("W5", 5)
 }
 
 var windingConvention = true // lower endpoint closed (set by W1 on the real function)
@@ -354,4 +356,75 @@ func checkSharedKernels(ctx *Ctx, r *Report) {
 	}
 	ff, fs := form(fast), form(slow)
 	r.check("W4", "final-sign-rule-identical", fast.Pos(), ff == "inside-negative" && fs == ff, fmt.Sprintf("result = (wn != 0) ? −√d² : √d² in both; fast: %s, slow: %s", ff, fs))
+}
+
+// ---------------------------------------------------------------- W5: exact tiling
+
+// checkQuadTiling: the four child boxes of a quadtree node must tile the node's box exactly in
+// floating point, and the split lines must be the coordinates of the node's centre (which
+// qtNode.winding routes on): a crossing segment is clipped into the children, so a child edge
+// that is rounded differently from its neighbour's or from its parent's edge leaves a sliver
+// one ulp wide that belongs to no leaf, and a ray cast inside the sliver misses the crossings
+// of that column: enclosed points come back positive. Decided on float-faithful terms (the
+// operations as performed, no re-association): each shared coordinate must be ONE expression.
+func checkQuadTiling(ctx *Ctx, r *Report) {
+	eval := func(name string) map[string]*Term {
+		fn := ctx.ssaFunc("sdf", "(Box2)."+name)
+		if fn == nil {
+			return nil
+		}
+		ev := newEval(ctx)
+		ev.faithful = true
+		res, _ := ev.evalRoot(fn)
+		m := map[string]*Term{}
+		leafTerms("", res, m)
+		return m
+	}
+	c := eval("Center")
+	if c == nil || c[".X"] == nil || c[".Y"] == nil {
+		r.undecided("W5", "Box2.Center", 0, "not found or not a closed form")
+		return
+	}
+	build := ctx.ssaFunc("sdf", "qtBuild")
+	if build != nil {
+		usesCenter := false
+		allInstrs(build, func(b *ssa.BasicBlock, ins ssa.Instruction) {
+			if call, ok := ins.(*ssa.Call); ok {
+				if f := call.Call.StaticCallee(); f != nil && f.Name() == "Center" {
+					usesCenter = true
+				}
+			}
+		})
+		r.check("W5", "qtBuild|routing-centre-is-Box2.Center", build.Pos(), usesCenter, "the node centre that winding() routes on is box.Center()")
+	} else {
+		r.undecided("W5", "qtBuild", 0, "not found")
+	}
+	aMinX, aMinY, aMaxX, aMaxY := A("a.Min.X"), A("a.Min.Y"), A("a.Max.X"), A("a.Max.Y")
+	want := map[string][4]*Term{ // Min.X, Min.Y, Max.X, Max.Y
+		"quad0": {aMinX, aMinY, c[".X"], c[".Y"]},
+		"quad1": {c[".X"], aMinY, aMaxX, c[".Y"]},
+		"quad2": {aMinX, c[".Y"], c[".X"], aMaxY},
+		"quad3": {c[".X"], c[".Y"], aMaxX, aMaxY},
+	}
+	for _, q := range []string{"quad0", "quad1", "quad2", "quad3"} {
+		m := eval(q)
+		if m == nil {
+			r.undecided("W5", "Box2."+q, 0, "not found")
+			continue
+		}
+		ok := true
+		detail := ""
+		for i, f := range []string{".Min.X", ".Min.Y", ".Max.X", ".Max.Y"} {
+			got := m[f]
+			if got == nil || got.Key() != want[q][i].Key() {
+				ok = false
+				g := "?"
+				if got != nil {
+					g = shortKey(got.Key(), 90)
+				}
+				detail += fmt.Sprintf(" %s is computed as %s, the neighbouring edge as %s;", f[1:], g, shortKey(want[q][i].Key(), 90))
+			}
+		}
+		r.check("W5", "Box2."+q+"|shares-its-edges-with-parent-and-siblings", ctx.ssaFunc("sdf", "(Box2)."+q).Pos(), ok, "outer edges are the parent's own coordinates, inner edges the centre's (same floating-point expression on both sides);"+detail)
+	}
 }
